@@ -1,4 +1,5 @@
-//! Fault injection at the libc boundary. The harness binary defines `recvmsg` and `write` itself, so the
+//! Fault injection at the libc boundary. The harness binary defines `recvmsg`, `send` and `write` itself (std's
+//! `UnixStream::write` is `send(.., MSG_NOSIGNAL)` — seen with strace; `write` is kept for other stream types), so the
 //! static linker resolves every reference to them inside this executable (vmm-sys-util's `raw_recvmsg`,
 //! std's `impl Write for UnixStream`) to these functions instead of glibc's. Without an armed fault both
 //! pass straight through to the system call, so the code under test is the real code on real sockets; with one,
@@ -133,6 +134,35 @@ pub unsafe extern "C" fn recvmsg(fd: libc::c_int, msg: *mut libc::msghdr, flags:
 
 /// Interposed `write(2)` (std's `Write for UnixStream`, and everything else in this process).
 ///
+/// `send(2)` — what std's `UnixStream::write` calls (with MSG_NOSIGNAL). Same faults and counters as `write`.
+/// # Safety
+/// Same contract as the libc function; arguments are passed unchanged to the system call.
+#[no_mangle]
+pub unsafe extern "C" fn send(fd: libc::c_int, buf: *const libc::c_void, count: libc::size_t, flags: libc::c_int) -> libc::ssize_t {
+    let mut count = count;
+    if let Some(i) = idx(fd) {
+        if COUNTING.load(Ordering::Relaxed) != 0 {
+            WRITE_CALLS[i].fetch_add(1, Ordering::Relaxed);
+        }
+        let f = WRITE_FAULT[i].load(Ordering::Relaxed);
+        if f != 0 {
+            WRITE_FAULT[i].store(0, Ordering::SeqCst);
+            if f == -1 {
+                return 0;
+            } else if f > 0 {
+                set_errno(f);
+                return -1;
+            } else if f <= -1000 {
+                let k = (-(f + 1000)) as usize;
+                if k < count {
+                    count = k.max(1);
+                }
+            }
+        }
+    }
+    libc::syscall(libc::SYS_sendto, fd as libc::c_long, buf, count, flags as libc::c_long, 0 as libc::c_long, 0 as libc::c_long) as libc::ssize_t
+}
+
 /// # Safety
 /// Same contract as the libc function; arguments are passed unchanged to the system call.
 #[no_mangle]
